@@ -173,31 +173,39 @@ Definition default_config : config :=
 Definition same_problem (a b : config) : bool :=
   Bool.eqb (cf_fit_intercept a) (cf_fit_intercept b) && Bool.eqb (cf_positive a) (cf_positive b).
 
-(** column [j] of the gradient [D^T (D beta - theta)] and the bound it is compared with, from the
-    residuals [r] / row scales [s] (computed once per fit) *)
+(** column [j] of the gradient [D^T (D beta - theta)] from the residuals [r] (computed once per fit),
+    and the bound it is compared with for the non-default problems: [tol_ne] of the GLOBAL scale
+    (sum |column j|) * (sum of the row scales).  (The row-wise scale of [normal_eq_ok] degenerates
+    without an intercept: theta = 0 on every row with a non-zero regressor has the exact solution
+    b = 0, every such row then has scale |rounding noise of coef_| and the noise is compared with
+    itself.  For the default problem the clause stays [normal_eq_ok], verbatim.) *)
 Definition gradc (Xf : list (list Q)) (r : list Q) (j : nat) : Q := dotr (design_col Xf j) r.
-Definition limc (Xf : list (list Q)) (s : list Q) (j : nat) : Q :=
-  tol_ne * dotr (map Qabs (design_col Xf j)) (map Qabs s).
+Definition limg (Xf : list (list Q)) (s : list Q) (j : nat) : Q :=
+  tol_ne * (qsum (map Qabs (design_col Xf j)) * qsum (map Qabs s)).
 Definition grad (Xf : list (list Q)) (thf : list Q) (b0 : Q) (b : list Q) (j : nat) : Q :=
   gradc Xf (residuals Xf thf b0 b) j.
 Definition grad_lim (Xf : list (list Q)) (thf : list Q) (b0 : Q) (b : list Q) (j : nat) : Q :=
-  limc Xf (row_scales Xf thf b0 b) j.
+  limg Xf (row_scales Xf thf b0 b) j.
 
 (** slope entry [j] (design column [j], [1 <= j]) is optimal for the configuration *)
 Definition slope_ok (cfg : config) (Xf : list (list Q)) (r s : list Q) (b : list Q) (j : nat) : bool :=
   let g := gradc Xf r j in
-  let lim := limc Xf s j in
+  let lim := limg Xf s j in
   if cf_positive cfg then
     let bj := nth (pred j) b 0 in
     Qle_bool 0 bj && (if Qeq_bool bj 0 then Qle_bool (- lim) g else Qle_bool (Qabs g) lim)
   else Qle_bool (Qabs g) lim.
 
+Definition default_problem (cfg : config) : bool := cf_fit_intercept cfg && negb (cf_positive cfg).
+
 (** [(intercept_, coef_)] solve the regression problem of the configuration on the usable rows *)
 Definition fit_ok (cfg : config) (Xf : list (list Q)) (thf : list Q) (b0 : Q) (b : list Q) : bool :=
-  let r := residuals Xf thf b0 b in
-  let s := row_scales Xf thf b0 b in
-  (if cf_fit_intercept cfg then Qle_bool (Qabs (gradc Xf r 0)) (limc Xf s 0) else Qeq_bool b0 0)
-  && forallb (slope_ok cfg Xf r s b) (seq 1 (length b)).
+  if default_problem cfg then normal_eq_ok Xf thf b0 b
+  else
+    let r := residuals Xf thf b0 b in
+    let s := row_scales Xf thf b0 b in
+    (if cf_fit_intercept cfg then Qle_bool (Qabs (gradc Xf r 0)) (limg Xf s 0) else Qeq_bool b0 0)
+    && forallb (slope_ok cfg Xf r s b) (seq 1 (length b)).
 
 (** the object's public [X] attribute, read back after [adjust()]: the same shape, non-finite exactly
     where [summaries - observed] is, and the same numbers (binary64 subtraction vs exact [Q]) *)
@@ -283,8 +291,8 @@ Record arun := {
   r_icpt : list Q;
   r_out : option (list (list Q));
   r_cfg : config;                (* keyword arguments the adjustment object was built with *)
-  r_oracle : list (list Q);      (* canonical listing: oracle slope of the run's regression problem (used when
-                                    it is not the default problem; the default problem uses [a_oracle]) *)
+  r_oracle : list (list Q);      (* canonical listing: oracle slope of the run's regression problem; [] = the
+                                    reference run's [a_oracle] (default problem, unique slope) *)
   r_X : option (list (list fval)) (* the object's X attribute after adjust(), in the run's own listing *)
 }.
 
@@ -313,11 +321,12 @@ Definition run_wf (c : acase) (r : arun) : bool :=
   && forallb (fun jt => storable (snd jt) (nth (fst jt) (a_obs c) None)) (combine (r_perm r) (r_odt r))
   && forallb (fun pt => forallb (storable (snd pt)) (fst pt)) (combine (a_params c) (r_pdt r)).
 
-(** the oracle slope of the run's regression problem (canonical listing): a run whose configuration
-    poses the default problem -- whatever its [copy_X] / [n_jobs] -- is held against the SAME slope as
-    the reference run *)
+(** the oracle slope of the run's regression problem (canonical listing): a run that leaves [r_oracle]
+    empty -- the harness does so for every run whose configuration poses the default problem, whatever
+    its [copy_X] / [n_jobs], unless the least-squares slope is not unique -- is held against the SAME
+    slope as the reference run *)
 Definition run_oracle (c : acase) (r : arun) : list (list Q) :=
-  if same_problem (r_cfg r) default_config then a_oracle c else r_oracle r.
+  match r_oracle r with [] => a_oracle c | o => o end.
 
 (** the run seen as a case of its own, in its own listing order *)
 Definition run_case (c : acase) (r : arun) : acase :=
